@@ -214,6 +214,14 @@ func genC15Case(r *rand.Rand, kind string) c15Case {
 	if unionAppend {
 		last = append(last, &snode{kind: "predefStruct", name: g.vname(), sname: ".Reward"})
 	}
+	// a horizontal struct list of nine elements as the last field: the appended columns are its tenth (and eleventh)
+	// element — columns of a NEW element extend the sheet, they belong to no existing element
+	growList := kind == "columns" && r.Intn(3) == 0
+	if growList {
+		hl := &snode{kind: []string{"hlist", "hmap"}[r.Intn(2)], name: "Slot", sname: "Slot", n: 9}
+		hl.sub = []*snode{{kind: "scalar", name: "ID", typ: "uint32"}, {kind: "scalar", name: "Num", typ: "int32"}}
+		last = append(last, hl)
+	}
 	// appended TYPE sheet named like a LOCAL type of the existing sheet (a member-less struct `{Skill}` nested in the
 	// sheet's message): the existing field keeps its own nested type
 	localAppend := kind == "sheets" && !wideTransposed && !unionAppend && r.Intn(2) == 0
@@ -276,6 +284,14 @@ func genC15Case(r *rand.Rand, kind string) c15Case {
 		// new columns after the existing ones (they join the vertical map/list element, or the sheet message)
 		extra := g.node(1)
 		cols := extra.columns("")
+		if growList {
+			extra = &snode{kind: "struct", name: "Slot10", sub: []*snode{{kind: "scalar", name: "ID", typ: "uint32"}, {kind: "scalar", name: "Num", typ: "int32"}}}
+			cols = []hcol{{"Slot10ID", "uint32"}, {"Slot10Num", "int32"}}
+			if r.Intn(2) == 0 {
+				extra.sub = append(extra.sub, &snode{kind: "scalar", name: "ID", typ: "uint32"}, &snode{kind: "scalar", name: "Num", typ: "int32"})
+				cols = append(cols, hcol{"Slot11ID", "uint32"}, hcol{"Slot11Num", "int32"})
+			}
+		}
 		rows := v2.Sheets[0].Rows
 		for _, c := range cols {
 			rows[0] = append(rows[0], c.name)
